@@ -13,19 +13,23 @@ HUGE = 10**12
 
 # ----------------------------------------------------------------- case language
 # body  := ('print',) | ('parent',) | ('breakat', k) | ('contat', k) | ('text', s)
+#        | ('helper', up, name)     {{ forloop[.parentloop]*up.name }}
+#        | ('include', body) | ('render', body)      the body becomes a partial template
 #        | ('for', loop, body, els) | ('tablerow', loop, cols, body)
 # loop  := {'it': name, 'limit': arg|None, 'offset': None|'continue'|arg, 'rev': bool}
-# arg   := (kind, z, 'lit'|'var')  kind in int|strint|nil|strbad
+# arg   := (kind, z, 'lit'|'var')  kind in int|strint|nil|strbad|strpad|strplus|strfrac|float|bool|inf|nan
+#          (float: z = (m, e) meaning m / 10^e; strpad ' z ', strplus '+z' / '-z', strfrac 'z.5')
 # iterables live in a pool: name -> ('list', [ints]) | ('range', a, b) | ('str', s) | ('dict', [(k, v)]) | ('other',)
 
 
 class Case:
-    def __init__(self, pool, body):
+    def __init__(self, pool, body, strseq=False):
         self.pool = pool
         self.body = body
+        self.strseq = strseq          # Environment.string_sequences
 
     def canonical(self):
-        return (sorted(self.pool.items()), self.body)
+        return (sorted(self.pool.items()), self.body, self.strseq)
 
 
 def arg_liquid(a, data, counter):
@@ -34,6 +38,23 @@ def arg_liquid(a, data, counter):
         val, lit = z, str(z)
     elif kind == "strint":
         val, lit = str(z), f"'{z}'"
+    elif kind == "strpad":
+        val, lit = f" {z}\t", f"' {z} '"
+    elif kind == "strplus":
+        val = lit = None
+        val = f"{z:+d}"
+        lit = f"'{z:+d}'"
+    elif kind == "strfrac":
+        val, lit = f"{z}.5", f"'{z}.5'"
+    elif kind == "float":
+        val = z[0] / 10 ** z[1]
+        lit = repr(val)
+    elif kind == "bool":
+        val, lit = bool(z), ("true" if z else "false")
+    elif kind == "inf":
+        val, lit, how = float("inf") * (1 if z >= 0 else -1), None, "var"
+    elif kind == "nan":
+        val, lit, how = float("nan"), None, "var"
     elif kind == "nil":
         val, lit = None, "nil"
     else:
@@ -54,7 +75,9 @@ def it_text(name, pool):
 
 
 def to_liquid(case: Case):
+    """(source, data, partials)"""
     data = {}
+    partials = {}
     for name, v in case.pool.items():
         if v[0] == "list":
             data[name] = list(v[1])
@@ -102,6 +125,21 @@ def to_liquid(case: Case):
                 out.append(s)
             elif k == "parent":
                 out.append("{{ forloop.parentloop.index }}")
+            elif k == "helper":
+                out.append("{{ forloop." + "parentloop." * b[1] + b[2] + " }}")
+            elif k == "include":
+                name = f"p{len(partials)}"
+                partials[name] = None
+                partials[name] = go(b[1], depth, inner)
+                out.append(f"{{% include '{name}' %}}")
+            elif k == "render":
+                name = f"p{len(partials)}"
+                partials[name] = None
+                v0 = counter[0]
+                partials[name] = go(b[1], depth, None)
+                names = sorted(case.pool) + [f"v{i}" for i in range(v0, counter[0])]
+                names = [n for n in names if case.pool.get(n, ("list",))[0] != "range"]
+                out.append(f"{{% render '{name}'" + "".join(f", {n}: {n}" for n in names) + " %}")
             elif k in ("breakat", "contat"):
                 drop = "forloop" if inner[2] == "for" else "tablerowloop"
                 tag = "break" if k == "breakat" else "continue"
@@ -118,13 +156,16 @@ def to_liquid(case: Case):
                            + "{% endtablerow %}")
         return "".join(out)
 
-    return go(case.body, 0, None), data
+    return go(case.body, 0, None), data, partials
 
 
 # ------------------------------------------------------------------ Gallina text
 def g_arg(a):
     kind, z, _ = a
-    return {"int": f"AInt {g_Z(z)}", "strint": f"AStrInt {g_Z(z)}", "nil": "ANil", "strbad": "AStrBad"}[kind]
+    if kind == "float":
+        return f"AFloat {g_Z(z[0])} {z[1]}%nat"
+    return {"int": f"AInt {g_Z(z)}", "strint": f"AStrInt {g_Z(z)}", "strpad": f"AStrInt {g_Z(z)}", "strplus": f"AStrInt {g_Z(z)}",
+            "nil": "ANil", "strbad": "AStrBad", "strfrac": "AStrBad", "bool": f"ABool {g_bool(bool(z))}", "inf": "AInf", "nan": "AInf"}[kind]
 
 
 def g_iter(v):
@@ -149,7 +190,7 @@ def to_gallina(case: Case):
     def g_loop(loop, var):
         off = loop["offset"]
         goff = "OffNone" if off is None else ("OffContinue" if off == "continue" else f"OffArg ({g_arg(off)})")
-        return (f"{{| lkey := {g_N(key(var, loop))}; liter := {g_iter(case.pool[loop['it']])}; "
+        return (f"{{| lkey := {g_N(key(var, loop))}; lname := {g_str(var + '-' + it_text(loop['it'], case.pool))}; liter := {g_iter(case.pool[loop['it']])}; "
                 f"llimit := {g_opt(loop['limit'], lambda a: '(' + g_arg(a) + ')')}; loffset := {goff}; "
                 f"lrev := {g_bool(loop['rev'])} |}}")
 
@@ -163,6 +204,12 @@ def to_gallina(case: Case):
                 out.append("BPrint")
             elif k == "parent":
                 out.append("BParent")
+            elif k == "helper":
+                out.append(f"BHelper {b[1]}%nat {HSEL[b[2]]}")
+            elif k == "include":
+                out.append(f"BInclude {go(b[1], depth)}")
+            elif k == "render":
+                out.append(f"BRender {go(b[1], depth)}")
             elif k == "breakat":
                 out.append(f"BBreakAt {g_Z(b[1])}")
             elif k == "contat":
@@ -175,25 +222,32 @@ def to_gallina(case: Case):
                            f"{go(b[3], depth + 1)}")
         return g_list(out)
 
-    return go(case.body, 0)
+    return f"{{| t_strseq := {g_bool(case.strseq)}; t_body := {go(case.body, 0)} |}}"
 
+
+HSEL = {"index": "HIndex", "index0": "HIndex0", "rindex": "HRindex", "rindex0": "HRindex0", "first": "HFirst", "last": "HLast",
+        "length": "HLength", "name": "HName"}
 
 # --------------------------------------------------------- implementation runner
-_ENV = None
+_ENVS = {}
 
 
-def env():
-    global _ENV
-    if _ENV is None:
-        from liquid import Environment
+def env(strseq=False, partials=None):
+    """The default environment, or one with string_sequences on; a fresh one (own loader) when there are partials."""
+    from liquid import DictLoader, Environment
 
-        _ENV = Environment()
-    return _ENV
+    if strseq not in _ENVS:
+        class SeqEnv(Environment):
+            string_sequences = True
+
+        _ENVS[strseq] = (SeqEnv if strseq else Environment, (SeqEnv if strseq else Environment)())
+    cls, shared = _ENVS[strseq]
+    return cls(loader=DictLoader(dict(partials))) if partials else shared
 
 
-def run_impl(src, data, use_async=False):
+def run_impl(src, data, use_async=False, strseq=False, partials=None):
     try:
-        t = env().from_string(src)
+        t = env(strseq, partials).from_string(src)
         if use_async:
             return ("out", run_async(t.render_async(**data)))
         return ("out", t.render(**data))
@@ -209,17 +263,33 @@ def g_obs(o):
 
 # ----------------------------------------- reference semantics (independent oracle)
 def ref_arg(a):
+    """The integer a limit/offset argument denotes: integers, integer strings (blanks and a sign allowed), floats by
+    their integer part, booleans as 0/1; anything else is a Liquid error."""
     kind, z, _ = a
-    if kind in ("int", "strint"):
+    if kind in ("int", "strint", "strpad", "strplus"):
         return z
+    if kind == "float":
+        return int(z[0] / 10 ** z[1])
+    if kind == "bool":
+        return 1 if z else 0
     raise RefError("liquid")
+
+
+def ref_cols(a):
+    """cols like Ruby's to_i: what is not a number counts as 0."""
+    try:
+        return ref_arg(a)
+    except RefError:
+        return 0
 
 
 class RefError(Exception):
     pass
 
 
-def ref_items(v):
+def ref_items(v, strseq=False):
+    if v[0] == "str" and strseq:
+        return list(v[1])
     if v[0] == "list":
         return [str(x) for x in v[1]]
     if v[0] == "range":
@@ -237,10 +307,11 @@ def b2s(b):
 
 def ref_render(case: Case):
     """Reference: the documented (Shopify) loop semantics, written without looking at liquid's arithmetic."""
-    stored = {}
+    stored_stack = [{}]
 
     def select(loop, var):
-        items = ref_items(case.pool[loop["it"]])
+        stored = stored_stack[-1]
+        items = ref_items(case.pool[loop["it"]], case.strseq)
         key = f"{var}-{it_text(loop['it'], case.pool)}"
         limit = None if loop["limit"] is None else ref_arg(loop["limit"])
         if loop["offset"] == "continue":
@@ -277,8 +348,27 @@ def ref_render(case: Case):
                     c, col, row = f["cols"], f["col"], f["row"]
                     out.append(f"{col}:{col - 1}:{b2s(col == 1)}:{b2s(col == c)}:{row};")
             elif k == "parent":
-                ps = [f for f in frames[:-1] if f["kind"] == "for"]
+                ps = [f for f in frames if f["kind"] == "for"][:-1]
                 out.append(str(ps[-1]["i"] + 1) if ps else "")
+            elif k == "helper":
+                ps = [f for f in frames if f["kind"] == "for"]
+                if b[1] < len(ps):
+                    f = ps[-1 - b[1]]
+                    i, n = f["i"], f["n"]
+                    out.append({"index": str(i + 1), "index0": str(i), "rindex": str(n - i), "rindex0": str(n - i - 1),
+                                "first": b2s(i == 0), "last": b2s(i == n - 1), "length": str(n), "name": f["name"]}[b[2]])
+            elif k == "include":
+                if len(stored_stack) > 1:
+                    raise RefError("liquid")   # include is not allowed inside a rendered template
+                go(b[1], depth, frames)        # same scope: loop stack, continue positions, interrupts
+            elif k == "render":
+                stored_stack.append({})         # isolated: no enclosing loops, fresh continue positions
+                try:
+                    go(b[1], depth, [])
+                except (Brk, Cont):
+                    raise RefError("liquid")
+                finally:
+                    stored_stack.pop()
             elif k == "breakat":
                 if frames[-1]["i"] + 1 == b[1]:
                     raise Brk
@@ -292,7 +382,7 @@ def ref_render(case: Case):
                         go(b[3], depth, frames)  # an interrupt in the else block belongs to the enclosing loop
                     continue
                 for i, item in enumerate(seg):
-                    fr = {"kind": "for", "item": item, "i": i, "n": len(seg)}
+                    fr = {"kind": "for", "item": item, "i": i, "n": len(seg), "name": f"x{depth}-{it_text(b[1]['it'], case.pool)}"}
                     try:
                         go(b[2], depth + 1, frames + [fr])
                     except Brk:
@@ -305,19 +395,13 @@ def ref_render(case: Case):
                 if b[2] is None:
                     cols = n
                 else:
-                    kind = b[2][0]
-                    if kind == "nil":
-                        raise RefError("unspecified")
-                    cols = 0 if kind == "strbad" else b[2][1]
+                    cols = ref_cols(b[2])
                 out.append('<tr class="row1">\n')
-                ecol, erow = 0, 1
                 for i, item in enumerate(seg):
-                    # cols <= 0 has no documented structure: follow the engine's counter there
-                    ecol, erow = (1, erow + 1) if ecol == cols else (ecol + 1, erow)
                     if cols > 0:
                         col, row = i % cols + 1, i // cols + 1      # documented row/column structure
                     else:
-                        col, row = ecol, erow
+                        col, row = i + 1, 1                         # no column ever is the last one: a single row
                     fr = {"kind": "tablerow", "item": item, "i": i, "n": n, "cols": cols, "col": col, "row": row}
                     out.append(f'<td class="col{col}">')
                     brk = False
@@ -385,7 +469,7 @@ def gen_cases(ck: Check):
                 loop = {"it": "a", "limit": lim, "offset": off, "rev": rng.random() < 0.3}
                 yield "argkinds", Case({"a": it}, [("for", loop, [("print",)], [("text", "E")])])
     # 3. chains of loops sharing an offset:continue key
-    for n in range(0, 6 if ck.quick else 8):
+    for n in range(0, 5 if ck.quick else 8):
         pool = {"a": ("list", list(range(1, n + 1)))}
         lims = [None, 0, 1, 2, 3] if ck.quick else [None, -1, 0, 1, 2, 3, 5]
         for l1, l2, l3 in itertools.product(lims, repeat=3):
@@ -409,25 +493,147 @@ def gen_cases(ck: Check):
                     if n >= 2:
                         yield "tablerow", Case(pool, [("tablerow", loop, cols, [("print",), ("breakat", 2), ("text", "z")])])
                         yield "tablerow", Case(pool, [("tablerow", loop, cols, [("contat", 2), ("print",)])])
-    # 5. random nests (depth <= 3) with parentloop, break, continue, shared keys
+    # 5. random nests (depth <= 3) with parentloop, break, continue, shared keys, partials
     for _ in range(250 if ck.quick else 2500):
         yield "nest", gen_random_nest(rng)
+    # 6. strings as loop sources, with and without string_sequences; hashes
+    P = [("print",)]
+    E = [("text", "E")]
+    small = [None, ("int", 0, "lit"), ("int", 1, "lit"), ("int", 2, "var"), ("int", -1, "lit"), ("int", 5, "lit")]
+    for strseq in (False, True):
+        soffs = [None, "continue", ("int", 1, "lit"), ("int", -1, "var"), ("int", 5, "lit")] if ck.quick else [None, "continue"] + small[1:]
+        for text in ("", "a", "hey", "h\u00e9 y") if ck.quick else ("", "a", "hey", "h\u00e9 y", "abcdefg", " ", "a\nb"):
+            for lim, off, rev in itertools.product(small, soffs, (False, True)):
+                loop = {"it": "s", "limit": lim, "offset": off, "rev": rev}
+                yield "string", Case({"s": ("str", text)}, [("for", loop, P, E)], strseq)
+            for cols in (None, ("int", 2, "lit"), ("int", 0, "lit")):
+                loop = {"it": "s", "limit": None, "offset": None, "rev": False}
+                yield "string", Case({"s": ("str", text)}, [("tablerow", loop, cols, P)], strseq)
+            # a chain over the characters of one string
+            chain = []
+            for j in range(3):
+                chain += [("for", {"it": "s", "limit": ("int", 1, "lit"), "offset": None if j == 0 else "continue", "rev": False}, P, E),
+                          ("text", "|")]
+            yield "string", Case({"s": ("str", text)}, chain, strseq)
+    for n in range(0, 4 if ck.quick else 6):
+        pairs = [(chr(107 + i), i + 1) for i in range(n)]
+        for lim, off, rev in itertools.product(small, soffs, (False, True)):
+            loop = {"it": "h", "limit": lim, "offset": off, "rev": rev}
+            yield "hash", Case({"h": ("dict", pairs)}, [("for", loop, P, E)])
+        for cols in (None, ("int", 2, "lit")):
+            yield "hash", Case({"h": ("dict", pairs)}, [("tablerow", {"it": "h", "limit": None, "offset": None, "rev": False}, cols, P)])
+    # 7. every kind of value for limit, offset and cols
+    odd = [("float", (29, 1), "lit"), ("float", (20, 1), "var"), ("float", (5, 1), "lit"), ("float", (-5, 1), "var"), ("float", (-15, 1), "lit"),
+           ("float", (199, 2), "var"), ("bool", 1, "lit"), ("bool", 0, "lit"), ("bool", 1, "var"), ("inf", 1, "var"), ("inf", -1, "var"),
+           ("nan", 0, "var"), ("strpad", 2, "lit"), ("strpad", 1, "var"), ("strplus", 2, "lit"), ("strplus", -1, "var"),
+           ("strfrac", 2, "lit"), ("strfrac", 1, "var"), ("strint", 2, "lit"), ("strbad", 0, "var"), ("nil", 0, "var"),
+           ("int", HUGE, "var"), ("int", -HUGE, "lit"), ("strint", HUGE, "var")]
+    for n in ((0, 3) if ck.quick else (0, 1, 3, 4, 6)):
+        pool = {"a": ("list", list(range(1, n + 1)))}
+        for v in odd:
+            for other in (None, ("int", 1, "lit")):
+                for rev in (False, True):
+                    yield "argvalues", Case(pool, [("for", {"it": "a", "limit": v, "offset": other, "rev": rev}, P, E)])
+                    yield "argvalues", Case(pool, [("for", {"it": "a", "limit": other, "offset": v, "rev": rev}, P, E)])
+            yield "argvalues", Case(pool, [("tablerow", {"it": "a", "limit": v, "offset": None, "rev": False}, None, P)])
+            yield "argvalues", Case(pool, [("tablerow", {"it": "a", "limit": None, "offset": v, "rev": False}, ("int", 2, "lit"), P)])
+    # 8. tablerow cols: zero, negative, nil, strings of every kind, floats, booleans, infinity, huge
+    for n in ((0, 1, 3, 4) if ck.quick else range(0, 8)):
+        pool = {"a": ("list", list(range(1, n + 1)))}
+        colss = odd + [("int", 0, "lit"), ("int", 0, "var"), ("int", -1, "lit"), ("int", -3, "var"), ("nil", 0, "lit"), ("strbad", 0, "lit"),
+                       ("int", 1, "lit"), ("int", n, "var"), ("int", n + 1, "lit")]
+        for cols in colss:
+            base = {"it": "a", "limit": None, "offset": None, "rev": False}
+            yield "cols", Case(pool, [("tablerow", base, cols, P)])
+            yield "cols", Case(pool, [("tablerow", dict(base, limit=("int", 3, "lit"), offset=("int", 1, "lit")), cols, P)])
+            if n >= 2:
+                yield "cols", Case(pool, [("tablerow", base, cols, [("print",), ("breakat", 2), ("text", "z")])])
+                yield "cols", Case(pool, [("tablerow", base, cols, [("contat", 2), ("print",)])])
+                yield "cols", Case(pool, [("tablerow", base, cols, [("text", "["), ("breakat", n), ("contat", 1), ("print",)])])
+    # 9. offset:continue chains across for and tablerow sharing one key
+    for n in ((0, 2, 4) if ck.quick else range(0, 7)):
+        pool = {"a": ("list", list(range(1, n + 1)))}
+        lims = [None, 0, 1, 2] if ck.quick else [None, -1, 0, 1, 2, 3]
+        for kinds3 in itertools.product(("for", "tablerow"), repeat=3):
+            if kinds3 == ("for", "for", "for"):
+                continue
+            if ck.quick and kinds3 not in (("for", "tablerow", "for"), ("tablerow", "for", "tablerow"), ("tablerow", "tablerow", "for")):
+                continue
+            for l1, l2, l3 in itertools.product(lims, repeat=3):
+                body = []
+                for j, (kd, l) in enumerate(zip(kinds3, (l1, l2, l3))):
+                    loop = {"it": "a", "limit": None if l is None else ("int", l, "lit"),
+                            "offset": (None if j == 0 else "continue"), "rev": False}
+                    body.append(("for", loop, P, E) if kd == "for" else ("tablerow", loop, ("int", 2, "lit"), P))
+                    body.append(("text", "|"))
+                yield "chain-mixed", Case(pool, body)
+    # 10. parentloop and forloop.name through nested loops, tablerow, include (shared scope) and render (isolated)
+    probes = [("helper", u, h) for u in range(0, 4) for h in ("index", "name")] + [("helper", 1, "length"), ("helper", 2, "rindex0"),
+                                                                                 ("helper", 1, "first"), ("helper", 0, "last"), ("parent",)]
+    la = {"it": "a", "limit": None, "offset": None, "rev": False}
+    lb = {"it": "b", "limit": ("int", 2, "lit"), "offset": None, "rev": False}
+    lc = {"it": "c", "limit": None, "offset": None, "rev": True}
+    pool = {"a": ("list", [1, 2]), "b": ("range", 1, 3), "c": ("list", [7, 8])}
+
+    def wrap(kind, body):
+        return [(kind, body)] if kind in ("include", "render") else body
+
+    for pr in probes:
+        leaf = [pr, ("text", " ")]
+        for w1, w2, w3 in itertools.product(("plain", "include", "render"), repeat=3):
+            inner3 = wrap(w3, [("for", lc, leaf, None)])
+            inner2 = wrap(w2, [("for", lb, inner3 + leaf, None)])
+            yield "parentloop", Case(pool, wrap(w1, [("for", la, inner2 + leaf, None)]))
+        for w in ("plain", "include", "render"):
+            # a tablerow between two for loops is not on the loop stack
+            yield "parentloop", Case(pool, [("for", la, [("tablerow", lb, ("int", 2, "lit"), wrap(w, [("for", lc, leaf, None)]) + leaf)], None)])
+            yield "parentloop", Case(pool, [("tablerow", la, None, wrap(w, [("for", lb, [("tablerow", lc, None, leaf)], None)]))])
+    # 12. the else block of a loop whose own body writes nothing, nested in blocks that write nothing else
+    pool = {"a": ("list", [1, 2]), "e": ("list", [])}
+    sel = [{"it": "e", "limit": None, "offset": None, "rev": False}, {"it": "a", "limit": ("int", 0, "lit"), "offset": None, "rev": False},
+           {"it": "a", "limit": None, "offset": ("int", 5, "lit"), "rev": True}, {"it": "a", "limit": None, "offset": "continue", "rev": False},
+           {"it": "a", "limit": None, "offset": None, "rev": False}]
+    for silent in ([], [("breakat", 1)], [("contat", 2)], [("breakat", 2), ("contat", 1)]):
+        for lp in sel:
+            inner = ("for", lp, silent, E)
+            yield "else-silent", Case(pool, [inner])
+            yield "else-silent", Case(pool, [("for", la, [inner], None)])
+            yield "else-silent", Case(pool, [("for", la, [inner], E)])
+            yield "else-silent", Case(pool, [("for", la, [("for", la, [inner, inner], None)], None)])
+            yield "else-silent", Case(pool, [("tablerow", la, None, [inner])])
+            yield "else-silent", Case(pool, [("for", la, [("include", [inner])], None)])
+            yield "else-silent", Case(pool, [("for", la, [("render", [inner])], None)])
+    # 11. continue positions and interrupts through include and render
+    for n in range(0, 5):
+        pool = {"a": ("list", list(range(1, n + 1)))}
+        for l1, l2 in itertools.product([None, 0, 1, 2], repeat=2):
+            mk = lambda l, off: ("for", {"it": "a", "limit": None if l is None else ("int", l, "lit"), "offset": off, "rev": False}, P, E)
+            for w in ("include", "render"):
+                yield "partial-continue", Case(pool, [mk(l1, None), ("text", "|"), (w, [mk(l2, "continue"), ("text", "|"), mk(None, "continue")]),
+                                                      ("text", "|"), mk(None, "continue")])
+        for k in (1, 2, 3):
+            yield "partial-interrupt", Case(pool, [("for", la | {"it": "a"}, [("text", "<"), ("include", [("print",), ("breakat", k), ("text", "i")]), ("text", ">")], E)])
+            yield "partial-interrupt", Case(pool, [("for", la | {"it": "a"}, [("text", "<"), ("include", [("contat", k), ("print",)]), ("text", ">")], E)])
+            yield "partial-interrupt", Case(pool, [("tablerow", la | {"it": "a"}, ("int", 2, "lit"),
+                                                    [("include", [("print",), ("breakat", k), ("text", "i")])])])
 
 
 def gen_random_nest(rng):
     pool = {"a": ("list", list(range(1, rng.randrange(0, 6)))), "b": ("range", 1, rng.randrange(0, 5)),
-            "c": ("dict", [("p", 1), ("q", 2)][: rng.randrange(0, 3)]), "d": ("str", rng.choice(["", "s"]))}
+            "c": ("dict", [("p", 1), ("q", 2)][: rng.randrange(0, 3)]), "d": ("str", rng.choice(["", "s", "xyz"]))}
 
     def rarg():
         r = rng.random()
-        if r < 0.75:
+        if r < 0.65:
             return ("int", rng.randrange(-2, 6), rng.choice(["lit", "var"]))
+        if r < 0.8:
+            return (rng.choice(["strint", "strpad", "strplus"]), rng.randrange(0, 4), rng.choice(["lit", "var"]))
         if r < 0.9:
-            return ("strint", rng.randrange(0, 4), rng.choice(["lit", "var"]))
-        return rng.choice([("nil", 0, "lit"), ("strbad", 0, "var")])
+            return ("float", (rng.randrange(-15, 40), 1), rng.choice(["lit", "var"]))
+        return rng.choice([("nil", 0, "lit"), ("strbad", 0, "var"), ("bool", 1, "lit"), ("inf", 1, "var"), ("strfrac", 1, "lit")])
 
     def rloop():
-        return {"it": rng.choice("aabbcd"), "limit": rarg() if rng.random() < 0.4 else None,
+        return {"it": rng.choice("aabbcdd"), "limit": rarg() if rng.random() < 0.4 else None,
                 "offset": (None if rng.random() < 0.5 else ("continue" if rng.random() < 0.5 else rarg())),
                 "rev": rng.random() < 0.25}
 
@@ -443,10 +649,14 @@ def gen_random_nest(rng):
                 out.append(("breakat", rng.randrange(1, 4)))
             elif r < 0.65:
                 out.append(("contat", rng.randrange(1, 4)))
-            elif r < 0.75:
+            elif r < 0.72:
                 out.append(("text", rng.choice(["-", "_", "t"])))
+            elif r < 0.80:
+                out.append(("helper", rng.randrange(0, 3), rng.choice(["index", "name", "length", "last"])))
             elif depth < 3:
-                out.append(rnode(depth))
+                node = rnode(depth)
+                r2 = rng.random()
+                out.append(("include", [node]) if r2 < 0.15 else (("render", [node]) if r2 < 0.25 else node))
         return out
 
     def rnode(depth):
@@ -454,11 +664,9 @@ def gen_random_nest(rng):
             return ("for", rloop(), rbody(depth + 1, "for"),
                     [("text", "E")] if rng.random() < 0.6 else None)
         cols = None if rng.random() < 0.4 else rarg()
-        if cols is not None and cols[0] == "nil":
-            cols = ("int", 2, "lit")
         return ("tablerow", rloop(), cols, rbody(depth + 1, "tablerow"))
 
-    return Case(pool, [rnode(0) for _ in range(rng.randrange(1, 4))])
+    return Case(pool, [rnode(0) for _ in range(rng.randrange(1, 4))], strseq=rng.random() < 0.3)
 
 
 def classify_violation(case: Case, want, got_sync, got_async):
@@ -475,19 +683,21 @@ def shrink_case(case: Case, bad):
     while changed and len(body) > 1:
         changed = False
         for i in range(len(body)):
-            cand = Case(case.pool, body[:i] + body[i + 1:])
+            cand = Case(case.pool, body[:i] + body[i + 1:], case.strseq)
             if bad(cand):
                 body = cand.body
                 changed = True
                 break
-    return Case(case.pool, body)
+    return Case(case.pool, body, case.strseq)
 
 
 def verdict(case: Case):
-    src, data = to_liquid(case)
-    s = run_impl(src, data, False)
-    a = run_impl(src, data, True)
+    src, data, partials = to_liquid(case)
+    s = run_impl(src, data, False, case.strseq, partials)
+    a = run_impl(src, data, True, case.strseq, partials)
     want = ref_render(case)
+    if partials or case.strseq:
+        data = dict(data, __partials__=partials, __strseq__=case.strseq)
     return src, data, s, a, want
 
 
@@ -495,14 +705,22 @@ def run(ck: Check) -> None:
     ck.rule = (
         "single for loops: collection length 0..4 (quick) / 0..8 x limit x offset in {absent, continue, -3..len+3, 10^12} x reversed, "
         "for lists and ranges (exhaustive); limit/offset as variables, numeric strings, nil, junk over list/range/string/dict/other; "
-        "all chains of three loops sharing an offset:continue key; tablerow x cols in {absent,-1..len+1,'2','abc'} with break/continue; "
-        "seeded random nests to depth 3 with parentloop/break/continue. Non-trivial = the loop construct visits >= 1 item or takes the "
-        "else branch with a non-default limit/offset; distinct = distinct (pool, body)."
+        "all chains of three loops sharing an offset:continue key, for loops only and mixed with tablerow; tablerow x cols in "
+        "{absent,-1..len+1,'2','abc'} with break/continue; strings (empty, one character, several, non-ASCII) with string_sequences "
+        "off and on x limit x offset x reversed, as tablerow source and in a continue chain; hashes of 0..3 (quick) / 0..5 pairs likewise; "
+        "24 further limit/offset/cols values (floats, booleans, infinities, NaN, padded/signed/fractional numeric strings, nil, +-10^12) in "
+        "each position; tablerow cols over all of those plus 0, negatives and huge, with print/break/continue bodies; forloop.parentloop "
+        "chains 0..3 deep and forloop.name/length/first/last probes through three nested loops where each level is plain, an include or "
+        "a render partial, and through tablerow levels; continue positions and break/continue through include and render partials; "
+        "seeded random nests to depth 3 mixing all of it. Non-trivial = the loop construct visits >= 1 item or takes the else branch; "
+        "distinct = distinct (pool, body, string_sequences)."
     )
     ck.trusted_base = [
         "Coq 8.16.1 kernel + vm_compute",
-        "harness: generator, Liquid-source printer and Gallina printer of the loop mini-language (props/c13.py)",
-        "modelled not verified: Python int()/islice/reversed, str() of ints and booleans, the template parser for the generated subset",
+        "harness: generator, Liquid-source printer (templates and partials for a DictLoader) and Gallina printer of the loop mini-language, "
+        "classification of numeric strings (props/c13.py)",
+        "modelled not verified: Python int()/islice/reversed on the generated values, str() of ints and booleans, the template parser for the "
+        "generated subset, include/render scoping as far as the loop stack and the continue positions are concerned (C15/C16 cover scoping)",
     ]
     ck.assumptions = ["collections are lists, dicts, ranges and strings of the listed shapes; drops and custom iterables are outside the model"]
     ck.proof()
@@ -539,7 +757,7 @@ def run(ck: Check) -> None:
     if not ck.samples:
         ck.sample({"template": meta[len(meta) // 2][1], "data": meta[len(meta) // 2][2], "output": meta[len(meta) // 2][3]})
     ck.sample({"template": meta[-1][1], "data": meta[-1][2], "output": meta[-1][3]})
-    mm = ck.coq_mismatches("c13", IMPORTS, "run_template", "obs_eqb", "list body", "obs", cases, expected, chunk=400)
+    mm = ck.coq_mismatches("c13", IMPORTS, "run_template", "obs_eqb", "tcase", "obs", cases, expected, chunk=400)
     ck.traces += len(cases)
     shown = 0
     for i in mm:
@@ -553,7 +771,7 @@ def run(ck: Check) -> None:
         model = ck.coq_eval(IMPORTS, [f"run_template ({to_gallina(case)})"])[0]
         ck.violation(
             "correspondence", "c13-correspondence",
-            f"model LoopSlice.run_template and the implementation disagree on {src!r} although the reference accepts the implementation",
+            f"model LoopSlice.run_template and the implementation disagree on {src!r} data {data!r} although the reference accepts the implementation",
             {"type": "template", "template": src, "data": data, "impl": s, "model": model,
              "broken": "correspondence LoopSlice.run_template ~ Environment.from_string(...).render (theorems C13_*)"},
             no_input=True,
@@ -567,6 +785,19 @@ def classify(case, want, s, a):
     flat = repr(case.body)
     if s[0] == "err" and s[1] == "ETypeError" and "'nil'" in flat and "tablerow" in flat:
         return "tablerow-cols-nil-TypeError"
+
+    def zero_cols(bs):
+        for b in bs:
+            if b[0] == "tablerow" and b[2] is not None and ref_cols(b[2]) == 0:
+                return True
+            if b[0] in ("for", "tablerow", "include", "render"):
+                subs = [x for x in b[1:] if isinstance(x, list)]
+                if any(zero_cols(x) for x in subs):
+                    return True
+        return False
+
+    if s[0] == "out" and want[0] == "out" and zero_cols(case.body):
+        return "tablerow-cols-zero-row-number"
     return "loop:" + repr(case.canonical())[:200]
 
 
@@ -575,8 +806,10 @@ def replay(data) -> int:
     if case.get("type") != "template":
         print("replay names a proof/correspondence obligation:", case)
         return 1
-    s = run_impl(case["template"], case["data"], False)
-    a = run_impl(case["template"], case["data"], True)
+    data_ = dict(case["data"])
+    partials, strseq = data_.pop("__partials__", None), data_.pop("__strseq__", False)
+    s = run_impl(case["template"], data_, False, strseq, partials)
+    a = run_impl(case["template"], data_, True, strseq, partials)
     print("template:", case["template"], "data:", case["data"])
     print("sync :", s)
     print("async:", a)
